@@ -72,7 +72,7 @@ Theorem C08_failed_setup_leaves_parser : forall f files g p argv,
   done_after_work f = true -> p_setup p = None ->
   match p_setup (snd (fst (parse_step f files g p argv))) with
   | None => True
-  | Some su => exists live args, do_setup (setup_g f g p) (p_cr p) (p_adds p) live args = Ok su
+  | Some su => exists live args, setup_in f (setup_g f g p) p live args = Ok su
   end.
 Proof. exact failed_setup_leaves_parser. Qed.
 Print Assumptions C08_failed_setup_leaves_parser.
@@ -80,13 +80,33 @@ Theorem C08_failed_help_leaves_parser : forall f g p,
   done_after_work f = true -> p_setup p = None ->
   match p_setup (snd (fst (help_step f g p))) with
   | None => True
-  | Some su => do_setup (setup_g f g p) (p_cr p) (p_adds p) (p_live p) [] = Ok su
+  | Some su => setup_in f (setup_g f g p) p (p_live p) [] = Ok su
   end.
 Proof. exact failed_help_leaves_parser. Qed.
 Print Assumptions C08_failed_help_leaves_parser.
 
+(* seeded change C08-04: were the module-level registry of Enum parsing functions (`_parsing_fns`, written by parse_enum)
+   keyed by "<module>.<qualname>" instead of by the class object, a second dataclass with its own same-named Enum would be
+   parsed with the first one's function: [Construct 0; AddArgs 0 {modes: List[Mode{FAST=1,SLOW=2}]}; Parse 0 --modes FAST SLOW;
+   Construct 1; AddArgs 1 {modes: List[Mode{SLOW=1,SAFE=2}]}; Parse 1 --modes SLOW] -> SLOW=2 of the other class *)
+Theorem C08_history_refuted_registry : reg_by_class facts_gen = false -> ~ history_full facts_gen FILES.
+Proof. exact (refuted_registry facts_gen). Qed.
+Print Assumptions C08_history_refuted_registry.
+
+(* As the code stands (class keys) the registry is UNOBSERVABLE: whatever it holds, a parse answers the same and leaves
+   its parser in the same state; set-up always sees the parser's own dataclasses *)
+Theorem C08_registry_unobservable : forall f files c r1 r2 p argv,
+  reg_by_class f = true ->
+  snd (parse_step f files (mkglob c r1) p argv) = snd (parse_step f files (mkglob c r2) p argv)
+  /\ snd (fst (parse_step f files (mkglob c r1) p argv)) = snd (fst (parse_step f files (mkglob c r2) p argv)).
+Proof. exact registry_unobservable. Qed.
+Print Assumptions C08_registry_unobservable.
+Theorem C08_registry_by_class_is_identity : forall reg adds, resolve_adds true reg adds = adds.
+Proof. exact resolve_by_class. Qed.
+Print Assumptions C08_registry_by_class_is_identity.
+
 (* What IS true, for histories of any length over any number of parsers: under `benign` - a decidable predicate
-   whose five clauses (b_spelling, b_cfgarg, b_tuple, b_frozen, b_defaults in Model/History.v) name exactly the
+   whose clauses (b_spelling, b_registry, b_cfgarg, b_tuple, b_frozen, b_defaults in Model/History.v) name exactly the
    situations above, each guarded by its switch - every parse answers what a fresh interpreter answers.
    Proved by induction over the operation list; holds for every setting of the switches. *)
 Theorem C08_history_partial : forall f files ops k i argv d,
